@@ -13,6 +13,8 @@ RULE = ('search p_bbox: every drawable family of the zoo x random styles (stroke
 
 def search(tier, rng):
     n = 8000 if tier == 'quick' else 150000
+    for c in axis_line_cases():
+        yield J('p_bbox', c)
     for k in range(n):
         fam = FAMILIES[k % len(FAMILIES)]
         yield J('p_bbox', zoo_case(rng, fam, maxw=24, dotted=True))
